@@ -13,13 +13,16 @@ MANIFEST = dict(
          "in which the loop (blocked posting a timer event into the full event queue, mid-turn) and the periodic server (blocked "
          "posting a session report into the full report queue, mid-tick) wait for each other; its permanence (no action of anybody "
          "is enabled, ever); absence of the wedge whenever a turn fits into the event queue or a tick fits into the report queue; "
-         "and C18_wedge_refuted: the wedge IS reachable. Tie / search: full-stack probes (real PfcpServer + real Gtp5g driver over "
+         "C18_wedge_refuted: the wedge IS reachable; every queue is made with the capacity constant the model uses "
+         "(C18_capacities, from the generated make(chan) table) and no send the loop can reach inside package pfcp can block "
+         "(C18_loop_sends_cannot_block, from the generated loop_sends table). Tie / search: full-stack probes (real PfcpServer + real Gtp5g driver over "
          "the simulated gtp5g kernel + real periodic server) on both sides of the characterisation: below the thresholds the UPF "
-         "must answer a heartbeat within the deadline (a hang there is a new violation), above them the known wedge is "
+         "must answer a heartbeat within the deadline (a hang there is a new violation) - including probes that take the two "
+         "thresholds apart (sessions x URRs > 512 timer events with < 128 reported sessions) and packet-queue overrun bursts -, above them the known wedge is "
          "reproduced with the goroutine dump showing the two blocked call sites and printed as KNOWN-FINDING.",
     note="Partial: fairness of the Go scheduler and liveness beyond 'the blocked send is enabled' are not modelled; data-plane call "
-         "latency is simulated by holding the tick's netlink query. stopTicker's unbuffered hand-shake is in the generated table "
-         "but its cycle (sig=stopticker-cycle) is not probed. ",
+         "latency is simulated by holding the tick's netlink query. The stopTicker hand-shake cycle was found real by C17's "
+         "stress and repaired (8577a06). ",
     technique="Coq: deadlock characterisation + reachability witness over a queue model with generated capacities/modes; full-stack hang probes",
     design="4/C18")
 
